@@ -280,3 +280,38 @@ func buildNested() (*Object, error) {
 			return callVal(ctx, run, paradigm, valInput(r), opts)
 		}}, nil
 }
+
+// ---------------------------------------------------------------------------------------------------
+// nested graph whose inner run exceeds its step limit: START -> o1 -> sub{x <-> y, never leaving} -> END.
+// Every run of this object FAILS, with an error the framework makes itself (step limit, wrapped with the
+// node path on its way out). The error a caller gets, and the error events of its handler, must be those of
+// its solo run: a failing run is as isolated as a successful one.
+
+func buildNestedStepLimit() (*Object, error) {
+	sub := compose.NewGraph[Val, Val]()
+	errs := []error{
+		sub.AddLambdaNode("x", lam("sub/x", chain("x")), compose.WithNodeName("x")),
+		sub.AddLambdaNode("y", lam("sub/y", chain("y")), compose.WithNodeName("y")),
+		sub.AddEdge(compose.START, "x"), sub.AddEdge("x", "y"),
+		sub.AddBranch("y", compose.NewGraphBranch(func(ctx context.Context, in Val) (string, error) { return "x", nil },
+			map[string]bool{"x": true, compose.END: true})),
+	}
+	g := compose.NewGraph[Val, Val]()
+	errs = append(errs,
+		g.AddLambdaNode("o1", lam("o1", chain("o1")), compose.WithNodeName("o1")),
+		g.AddGraphNode("sub", sub, compose.WithNodeName("sub"), compose.WithGraphCompileOptions(compose.WithMaxRunSteps(3))),
+		g.AddEdge(compose.START, "o1"), g.AddEdge("o1", "sub"), g.AddEdge("sub", compose.END))
+	for _, e := range errs {
+		if e != nil {
+			return nil, e
+		}
+	}
+	run, err := g.Compile(context.Background(), compose.WithGraphName("NESTLIMIT"))
+	if err != nil {
+		return nil, err
+	}
+	return &Object{Kind: "nested-steplimit", Paradigms: valParadigms,
+		call: func(ctx context.Context, r *Rec, paradigm string) (string, error) {
+			return callVal(ctx, run, paradigm, valInput(r), commonOpts(r))
+		}}, nil
+}
